@@ -178,14 +178,19 @@ def instantiate(name, el, pid, i):
 def build_part(spec):
     """Build a Part from a specification.  Returns (part, [object per element, in spec order])."""
     import partitura.score as S
-    p = S.Part(spec["id"], part_name=spec.get("name"), quarter_duration=spec["divs"])
+    cast = int
+    if spec.get("np"):
+        # divisions and times as numpy integers (what parts built from note arrays or MIDI ticks carry)
+        import numpy as np
+        cast = getattr(np, spec["np"])
+    p = S.Part(spec["id"], part_name=spec.get("name"), quarter_duration=cast(spec["divs"]))
     objs = [None] * len(spec["elems"])
     order = sorted(range(len(spec["elems"])), key=lambda i: 1 if spec["elems"][i]["cls"] in ("Slur", "Tuplet", "Fermata") else 0)
     for i in order:
         el = spec["elems"][i]
         o = make_object(el, objs, spec.get("note_prefix", spec["id"]), i)
         objs[i] = o
-        p.add(o, el["s"], el["e"])
+        p.add(o, cast(el["s"]), cast(el["e"]) if el["e"] is not None else None)
     for i, el in enumerate(spec["elems"]):
         if el.get("tie_next") is not None:
             a, b = objs[i], objs[el["tie_next"]]
@@ -461,7 +466,9 @@ def gen_case(rng, mode=None, force_many_voices=False, force_history=False):
         ds.append(rng.choice(ds + [1, 7]))
     rng.shuffle(ds)
     if force_history:
-        ds = ds[:3]
+        ds = ds[:4] if rng.random() < 0.5 else ds[:3]
+        if len(ds) == 3 and rng.random() < 0.4:
+            ds.append(rng.choice(ds + [1, 7]))
     elif len(ds) > 2 and rng.random() < 0.3:
         ds = ds[:2]                                  # (merge_parts costs milliseconds per time point)
     layout = gen_layout(rng)
@@ -484,12 +491,21 @@ def gen_case(rng, mode=None, force_many_voices=False, force_history=False):
             content = "empty"
         parts.append(gen_part(rng, pi, d, layout, flags, mode, many_voices=(pi == many_at), n_measures=nmeas, content=content))
     assign_identities(rng, parts)
+    r = rng.random()
+    if r < 0.2:
+        for sp in parts:
+            if r < 0.08 or rng.random() < 0.5:
+                sp["np"] = rng.choice(["int32", "int64"])
     case = {"mode": mode, "container": gen_container(rng, len(parts)), "parts": parts, "pickup": layout["pickup"]}
     r = rng.random() if not force_history else 0.0
     if r < 0.14 and len(parts) >= 3 and not many:
         # a history: the first k parts are merged first (any mode), the merged part is the first input
         k = rng.randint(2, len(parts) - 1)
         case["pre"] = {"k": k, "mode": rng.choice(MODES)}
+        if len(parts) - k >= 2 and rng.random() < 0.6:
+            # three levels: the merged part is merged with the next j parts before the call
+            case["pre"]["then"] = {"k": rng.randint(1, len(parts) - k - 1), "mode": rng.choice(MODES)}
+            k += case["pre"]["then"]["k"]
         case["container"] = gen_container(rng, len(parts) - k + 1)
     elif r < 0.18:
         # outside the quantifier: a note or rest without voice ("voice" / "auto" raise, "staff" merges)
@@ -497,6 +513,129 @@ def gen_case(rng, mode=None, force_many_voices=False, force_history=False):
         if gs:
             pi, ei = rng.choice(gs)
             parts[pi]["elems"][ei]["voice"] = None
+    return case
+
+
+HIST_KINDS = ["score_setitem", "score_setitem", "score_listops", "score_unfold", "score_unfold", "edits", "edits", "pre_edits", "arg_edits", "arg_edits"]
+UNFOLD_HAZARDS = ("Repeat", "DaCapo", "Fine", "Segno", "Coda", "DalSegno", "ToCoda", "Ending")
+
+
+def gen_edits(rng, parts, targets, n=None):
+    """Calls that only read, then edits of the inputs `targets` (indices of effective inputs) through the public API."""
+    eds = [{"op": "observe", "what": w} for w in rng.sample(["part_note_array", "score_note_array", "iter_parts", "single_merge"], rng.randint(1, 3))]
+    for ne in range(n or rng.choice([2, 3, 3, 4])):
+        pi = rng.choice(targets)
+        r = rng.random() if ne else rng.random() * 0.65       # (the first edit adds an element more often than not)
+        if r < 0.4:
+            # a new note / rest / unpitched note: in a voice (on a staff) above everything the part uses, or in a used one
+            hi = rng.random() < 0.7
+            eds.append({"op": "add", "p": pi, "el": {"cls": rng.choice(["Note", "Note", "Rest", "UnpitchedNote", "GraceNote"]), "s": rng.randrange(0, 64),
+                                                      "dur": rng.randrange(1, 16), "voice": rng.choice([5, 6, 9]) if hi else rng.choice([1, 2]),
+                                                      "staff": rng.choice([4, 5, None]) if hi else rng.choice([None, 1, 2]), "pitch": rng.randint(40, 90)}})
+        elif r < 0.55:
+            eds.append({"op": "remove", "p": pi, "k": rng.randrange(0, 50)})
+        elif r < 0.75:
+            eds.append({"op": "voice", "p": pi, "k": rng.randrange(0, 50), "value": rng.choice([1, 2, 3, 7, 8])})
+        elif r < 0.88:
+            eds.append({"op": "staff", "p": pi, "k": rng.randrange(0, 50), "value": rng.choice([None, 1, 2, 3, 6])})
+        else:
+            eds.append({"op": "divs", "p": pi, "value": rng.choice([1, 2, 3, 4, 5, 6, 8, 9, 12])})
+    if rng.random() < 0.3:
+        eds.insert(rng.randrange(1, len(eds) + 1), {"op": "observe", "what": rng.choice(["part_note_array", "score_note_array"])})
+    return eds
+
+
+def gen_hist_case(rng, mode=None, kind=None):
+    """State carried between calls: the argument has a history when merge_parts is called.
+      score_setitem / score_listops: a Score, reads, score[i] = part / score.parts.append / pop, (reads,) the call;
+      score_unfold: the Score returned by unfold_part_maximal / unfold_part_minimal (every part carries a repeat);
+      edits: reads of the inputs (note arrays, traversal, one-part merges), then elements added / removed, voices,
+             staves, divisions changed, then the call;   pre_edits: the same on a part that is itself a merged part;
+      arg_edits: a look at the list / group / Score, then parts appended to the list or to a group, or the order
+                 reversed, then the call (a Score keeps the parts it had when it was built)."""
+    kind = kind or rng.choice(HIST_KINDS)
+    while True:
+        case = gen_case(rng, mode=mode, force_history=(kind == "pre_edits"))
+        if not voiceless(case) and len(case["parts"]) >= 2 and ("pre" in case) == (kind == "pre_edits") and not any(
+                len({e["voice"] for e in sp["elems"] if e["cls"] in GENERIC_CLS}) > 4 for sp in case["parts"]):
+            break
+    case["hist_kind"] = kind
+    parts = case["parts"]
+    n = len(parts)
+    if kind in ("edits", "pre_edits"):
+        neff = n if kind == "edits" else n - case["pre"]["k"] - case["pre"].get("then", {}).get("k", 0) + 1
+        targets = list(range(neff)) if kind == "edits" else [0, 0, 0] + list(range(neff))
+        case["edits"] = gen_edits(rng, parts, targets)
+        return case
+    layout = gen_layout(rng)
+    spare_d = lambda: rng.choice([1, 2, 3, 4, 5, 6, 7, 8, 10, 12])
+    if kind == "arg_edits":
+        for k in range(rng.choice([1, 1, 2])):
+            parts.append(gen_part(rng, len(parts), spare_d(), layout, ["measures", "ts"], case["mode"]))
+        assign_identities(rng, parts)
+        ty = rng.choice(["list", "list", "list", "group", "tuple", "score"])
+        m = rng.randint(1, n)                                    # parts in the argument at first (one: returned as it is)
+        forest = rand_forest(rng, list(range(m)))
+        if ty != "list" and not any(not isinstance(t, int) for t in forest):
+            forest = [forest]
+        case["container"] = {"type": ty, "tree": [forest] if ty == "group" else forest}
+        eds = []
+        for j in range(m, len(parts)):
+            eds.append(["append", "top" if (ty == "list" and rng.random() < 0.6) else rng.randrange(0, 4), j])
+        if rng.random() < 0.5:
+            eds.insert(rng.randrange(0, len(eds) + 1), ["reverse", "top" if (ty == "list" and rng.random() < 0.5) else rng.randrange(0, 4)])
+        case["arg_edits"] = eds
+        return case
+    # a Score with a history
+    if kind == "score_unfold":
+        for pi, sp in enumerate(parts):
+            d = sp["divs"]
+            els = [e for e in sp["elems"] if e["cls"] not in UNFOLD_HAZARDS and e["cls"] not in ("Measure", "TimeSignature")]
+            # references (slur / tuplet / fermata / ties) are kept consistent by drop_elems
+            keep = [i for i, e in enumerate(sp["elems"]) if e["cls"] not in UNFOLD_HAZARDS and e["cls"] not in ("Measure", "TimeSignature")]
+            sp2 = drop_elems(sp, keep)
+            total = max([1] + [e["s"] for e in sp2["elems"]] + [e["e"] for e in sp2["elems"] if e["e"] is not None])
+            q = -(-total // d)
+            q = max(q, 1)
+            head = [{"cls": "Measure", "s": 0, "e": q * d, "number": 1}, {"cls": "Measure", "s": q * d, "e": 2 * q * d, "number": 2},
+                    {"cls": "TimeSignature", "s": 0, "e": None, "beats": q, "beat_type": 4},
+                    {"cls": "Repeat", "s": 0, "e": q * d}]
+            if rng.random() < 0.7:
+                head.append({"cls": "Note", "s": q * d, "e": 2 * q * d, "voice": 1, "staff": rng.choice([None, 1]), "pitch": rng.randint(40, 90)})
+            nh = len(head)
+            for e in sp2["elems"]:
+                for f in ("from", "to", "tie_next", "ref"):
+                    if e.get(f) is not None:
+                        e[f] += nh
+            sp["elems"] = head + sp2["elems"]
+    nspare = rng.choice([1, 1, 2])
+    for k in range(nspare):
+        parts.append(gen_part(rng, len(parts), spare_d(), layout, rng.choice([["measures", "ts", "ks"], ["measures", "ts"], []]), case["mode"]))
+    assign_identities(rng, parts)
+    forest = rand_forest(rng, list(range(n))) if rng.random() < 0.5 else list(range(n))
+    case["container"] = {"type": "score", "tree": forest}
+    reads = lambda: [["observe", w] for w in rng.sample(["note_array", "len", "iter", "getitem"], rng.randint(0, 2))]
+    ops = reads()
+    spares = list(range(n, len(parts)))
+    if kind == "score_setitem":
+        for j in spares[:rng.choice([1, 1, 2])]:
+            ops.append(["setitem", rng.randrange(0, n), j])
+        ops += reads() if rng.random() < 0.3 else []
+    elif kind == "score_listops":
+        r = rng.random()
+        if r < 0.4:
+            ops.append(["append", spares[0]])
+        elif r < 0.7:
+            ops.append(["pop", rng.randrange(0, n)])
+        else:
+            ops += [["pop", rng.randrange(0, n)], ["append", spares[0]]]
+        if len(spares) > 1 and rng.random() < 0.5:
+            ops.append(["setitem", rng.randrange(0, 8), spares[1]])
+    else:
+        ops.append(["unfold", rng.choice(["maximal", "maximal", "minimal"])])
+        if rng.random() < 0.25:
+            ops.append(["setitem", rng.randrange(0, n), spares[0]])
+    case["score_hist"] = ops
     return case
 
 
@@ -657,6 +796,26 @@ def corpus_cases():
         # containers of one part
         for cont in ({"type": "list", "tree": [0]}, {"type": "part", "tree": [0]}, {"type": "group", "tree": [[0]]}, {"type": "score", "tree": [[0]]}):
             out.append({"mode": mode, "container": cont, "pickup": False, "parts": [P(0, 4, M(4) + [N(0, 4, 2, None), R(4, 8, 1, 2)])]})
+        # state carried between calls: a Score whose parts drifted from its part_structure, given to merge_parts itself
+        three = [P(0, 4, M(4, 1) + [N(0, 4, 1, 1), N(4, 8, 1, 1, 62), N(8, 12, 1, 1, 64), N(12, 16, 1, 1, 65)]),
+                 P(1, 6, M(6, 1) + [N(0, 6, 1, 1, 67), N(6, 12, 1, 1, 69), N(12, 18, 1, 1, 71), N(18, 24, 1, 1, 72)]),
+                 P(2, 3, M(3, 2) + [N(3 * k, 3 * k + 3, 1 + k % 2, 1, 48 + k) for k in range(8)])]
+        out.append({"mode": mode, "container": {"type": "score", "tree": [0, 1]}, "pickup": False, "parts": json.loads(json.dumps(three)),
+                    "hist_kind": "score_setitem", "score_hist": [["observe", "note_array"], ["setitem", 1, 2]]})
+        out.append({"mode": mode, "container": {"type": "score", "tree": [[0], 1]}, "pickup": False, "parts": json.loads(json.dumps(three)),
+                    "hist_kind": "score_listops", "score_hist": [["append", 2], ["observe", "len"], ["pop", 0]]})
+        rep_ = lambda i, d, p0: P(i, d, M(d, 2) + [N(0, 2 * d, 1, 1, p0), N(2 * d, 4 * d, 1, 1, p0 + 2), N(4 * d, 8 * d, 2, 1, p0 + 4),
+                                                   {"cls": "Repeat", "s": 0, "e": 4 * d}])
+        out.append({"mode": mode, "container": {"type": "score", "tree": [0, 1]}, "pickup": False, "parts": [rep_(0, 4, 60), rep_(1, 6, 72)],
+                    "hist_kind": "score_unfold", "score_hist": [["unfold", "maximal" if mode != "auto" else "minimal"]]})
+        # inputs read, then a note in a new voice and on a new staff added to the first input, the divisions of the second changed
+        out.append({"mode": mode, "container": {"type": "list", "tree": [0, 1]}, "pickup": False, "parts": json.loads(json.dumps(three[:2])),
+                    "hist_kind": "edits", "edits": [{"op": "observe", "what": "part_note_array"}, {"op": "observe", "what": "single_merge"},
+                                                    {"op": "add", "p": 0, "el": {"cls": "Note", "s": 4, "dur": 4, "voice": 3, "staff": 2, "pitch": 80}},
+                                                    {"op": "divs", "p": 1, "value": 3}]})
+        # a one-part list is merged (the part is returned as it is), then a second part is appended to its group
+        out.append({"mode": mode, "container": {"type": "list", "tree": [[0]]}, "pickup": False, "parts": json.loads(json.dumps(three[:2])),
+                    "hist_kind": "arg_edits", "arg_edits": [["append", 0, 1]]})
     return out
 
 
@@ -668,7 +827,9 @@ def build_inputs(case):
     """Fresh inputs of the case.  Returns a dict: parts / objs / divs of the EFFECTIVE inputs (what the
     container tree indexes), oid_of (identity of every object built), and -- when the case has a history
     ("pre": {"k": k, "mode": m}: the first k specified parts are merged first, the merged part is the first
-    effective input) -- raw: oid -> state of the object in its original part, with that part's divisions."""
+    effective input) -- raw: oid -> state of the object in its original part, with that part's divisions.
+    "edits": calls that only read and edits through the public API applied to the effective inputs after that
+    (see apply_edits); ps0 = the inputs as they were before the edits."""
     import partitura.score as S
     built = [build_part(sp) for sp in case["parts"]]
     parts = [b[0] for b in built]
@@ -687,28 +848,233 @@ def build_inputs(case):
             for o in objs[pi]:
                 raw[oid_of[id(o)]] = dict(obj_state(o, oid_of, pi), divs=divs[pi])
         first = S.merge_parts(parts[:k], reassign=pre["mode"])         # step one of the history
+        if pre.get("then"):
+            # step two: the merged part merged with the next j parts; the result is the first effective input
+            j = pre["then"]["k"]
+            for pi in range(k, k + j):
+                for o in objs[pi]:
+                    raw[oid_of[id(o)]] = dict(obj_state(o, oid_of, pi), divs=divs[pi])
+            first = S.merge_parts([first] + parts[k:k + j], reassign=pre["then"]["mode"])
+            k = k + j
         kept = sorted((o for o in all_elements(first) if id(o) in oid_of), key=lambda o: oid_of[id(o)])
         out.update(parts=[first] + parts[k:], objs=[kept] + objs[k:], divs=[int(first._quarter_durations[0])] + divs[k:],
-                   raw=raw, raw_divs=divs)
+                   raw=raw, raw_divs=divs, pre_total=k)
+    if case.get("edits"):
+        out["objs"] = [list(x) for x in out["objs"]]
+        out["divs"] = list(out["divs"])
+        out["ps0"] = snapshot(out["objs"], oid_of)
+        out["divs0"] = list(out["divs"])
+        out["edit_log"] = apply_edits(case, out)
     return out
+
+
+REMOVABLE_KINDS = ("KRest", "KWords", "KDirection", "KUnpitched")
+
+
+def apply_edits(case, inp):
+    """Between two calls: calls that only read (note arrays of a part / of a score over the inputs, a traversal),
+    then edits of an input through the public API (Part.add, Part.remove, attribute assignment,
+    Part.set_quarter_duration).  Returns the edits as they were carried out: (part index, op, ...)."""
+    import partitura.score as S
+    parts, objs, oid_of = inp["parts"], inp["objs"], inp["oid_of"]
+    log = []
+    nadd = 0
+    for ed in case["edits"]:
+        op = ed["op"]
+        if op == "observe":
+            try:
+                if ed["what"] == "part_note_array":
+                    for p in parts:
+                        p.note_array(include_staff=True)
+                elif ed["what"] == "score_note_array":
+                    S.Score(list(parts)).note_array()
+                elif ed["what"] == "iter_parts":
+                    list(S.iter_parts(list(parts)))
+                elif ed["what"] == "single_merge":
+                    for p in parts:                  # one part given: returned as it is (nothing is consumed)
+                        S.merge_parts([p], reassign=case["mode"])
+            except Exception:
+                pass
+            continue
+        pi = ed["p"] % len(parts)
+        p = parts[pi]
+        if op == "add":
+            el = dict(ed["el"])
+            last = int(p._points[-1].t) if len(p._points) else 1
+            el["s"] = el["s"] % (last + 1)
+            el["e"] = el["s"] + max(1, el["dur"] % (last + 1)) if el["cls"] != "GraceNote" else el["s"]
+            o = make_object(el, objs[pi], "add%d" % pi, 900 + nadd)
+            p.add(o, el["s"], el["e"])
+            oid_of[id(o)] = 1000 * (pi + 1) + 900 + nadd
+            nadd += 1
+            objs[pi].append(o)
+            log.append((pi, "add", o))
+        elif op == "remove":
+            cand = [o for o in objs[pi] if kind_of(o) in REMOVABLE_KINDS and oid_of[id(o)] % 1000 < 900]
+            if not cand:
+                continue
+            o = cand[ed["k"] % len(cand)]
+            oid = oid_of[id(o)]
+            p.remove(o)
+            objs[pi].remove(o)
+            log.append((pi, "remove", oid))
+        elif op in ("voice", "staff"):
+            cand = [o for o in objs[pi] if kind_of(o) in (GENERIC_KINDS if op == "voice" else STAFFED_KINDS) and oid_of[id(o)] % 1000 < 900]
+            if not cand:
+                continue
+            o = cand[ed["k"] % len(cand)]
+            setattr(o, op, ed["value"])
+            log.append((pi, op, oid_of[id(o)], ed["value"]))
+        elif op == "divs":
+            p.set_quarter_duration(0, ed["value"])
+            inp["divs"][pi] = ed["value"]
+            inp["divs_edited"] = inp.get("divs_edited", set()) | {pi}
+            log.append((pi, "divs", ed["value"]))
+    return log
+
+
+def tree_after(tree, arg_edits):
+    """The container tree after the edits of the argument (append a part to the list / to a group, reverse)."""
+    tree = json.loads(json.dumps(tree))
+    groups = []
+
+    def walk(t):
+        for x in t:
+            if not isinstance(x, int):
+                groups.append(x)
+                walk(x)
+    walk(tree)
+    for ed in arg_edits:
+        tgt = tree if ed[1] == "top" else (groups[ed[1] % len(groups)] if groups else None)
+        if tgt is None:
+            continue
+        if ed[0] == "append":
+            tgt.append(ed[2])
+        elif ed[0] == "reverse":
+            tgt.reverse()
+    return tree
+
+
+def prepare(case):
+    """Fresh inputs, the argument of merge_parts as it is just before the call, and the indices (into the
+    effective inputs) of the parts the argument holds NOW, in order."""
+    import partitura.score as S
+    inp = build_inputs(case)
+    parts = inp["parts"]
+    cont = case["container"]
+    arg = build_container(case, parts)
+    flat = flat_order(cont["tree"])
+    if case.get("arg_edits"):
+        # a look at the argument, then the argument is edited in place, then the call
+        try:
+            list(S.iter_parts(arg)) if not isinstance(arg, S.Score) else len(arg)
+            if len(flat) == 1:
+                S.merge_parts(arg, reassign=case["mode"])
+        except Exception:
+            pass
+        groups = []
+
+        def walk(items):
+            for x in items:
+                if isinstance(x, S.PartGroup):
+                    groups.append(x)
+                    walk(x.children)
+        top = arg.part_structure if isinstance(arg, S.Score) else ([arg] if cont["type"] in ("group", "part") else list(arg))
+        walk(top)
+        done = []
+        for ed in case["arg_edits"]:
+            if ed[1] == "top":
+                if cont["type"] != "list":
+                    continue
+                if ed[0] == "append":
+                    arg.append(parts[ed[2]])
+                else:
+                    arg.reverse()
+            else:
+                if not groups:
+                    continue
+                g = groups[ed[1] % len(groups)]
+                if ed[0] == "append":
+                    g.children.append(parts[ed[2]])
+                    parts[ed[2]].parent = g
+                else:
+                    g.children.reverse()
+            done.append(ed)
+        inp["tree_now"] = tree_after(cont["tree"], done) if cont["type"] != "group" else tree_after(cont["tree"], done)
+        if cont["type"] != "score":       # a Score keeps the flat list computed when it was built
+            flat = flat_order(inp["tree_now"])
+    if case.get("score_hist"):
+        assert cont["type"] == "score"
+        sops = []
+        for op in case["score_hist"]:
+            if op[0] == "observe":
+                try:
+                    {"note_array": lambda: arg.note_array(), "len": lambda: len(arg), "iter": lambda: [p for p in arg],
+                     "getitem": lambda: arg[0]}[op[1]]()
+                except Exception:
+                    pass
+                sops.append(("observe",))
+            elif op[0] == "setitem":
+                i = op[1] % len(arg.parts)
+                arg[i] = parts[op[2]]
+                sops.append(("setitem", i, op[2]))
+            elif op[0] == "append":
+                arg.parts.append(parts[op[1]])
+                sops.append(("append", op[1]))
+            elif op[0] == "pop":
+                if len(arg.parts) < 2:
+                    continue
+                i = op[1] % len(arg.parts)
+                arg.parts.pop(i)
+                sops.append(("pop", i))
+            elif op[0] == "unfold":
+                arg = S.unfold_part_maximal(arg) if op[1] == "maximal" else S.unfold_part_minimal(arg)
+                new = []
+                for p in arg.parts:
+                    pi = len(parts)
+                    os_ = list(all_elements(p))
+                    for ei, o in enumerate(os_):
+                        inp["oid_of"][id(o)] = 1000 * (pi + 1) + ei
+                    parts.append(p)
+                    inp["objs"].append(os_)
+                    inp["divs"].append(int(p._quarter_durations[0]))
+                    if len(p._quarter_durations) != 1:
+                        raise Uninstantiable("unfolded part with several divisions")
+                    new.append(pi)
+                sops.append(("replace_all", new))
+        idx = {id(p): i for i, p in enumerate(parts)}
+        flat = [idx[id(p)] for p in arg.parts]
+        inp["sops"] = sops
+    inp["arg"] = arg
+    inp["flat"] = flat
+    return inp
 
 
 def run_case(case):
     """Build fresh inputs, call merge_parts.  Returns a dict with everything observed."""
     import partitura.score as S
     try:
-        inp = build_inputs(case)
+        inp = prepare(case)
     except Uninstantiable:
         raise
     except Exception as e:
-        if not case.get("pre"):
+        if not (case.get("pre") or case.get("edits") or case.get("score_hist") or case.get("arg_edits")):
             raise
+        if case.get("score_hist") and any(op[0] == "unfold" for op in case["score_hist"]) and not case.get("pre"):
+            return {"skip": "unfold_part_* raised %s (C09's subject)" % type(e).__name__, "before": [], "flat": []}
         return {"exc": "%s: %s (in the first merge of the history)" % (type(e).__name__, e), "before": [], "flat": flat_order(case["container"]["tree"])}
     parts, objs, oid_of = inp["parts"], inp["objs"], inp["oid_of"]
     before = snapshot(objs, oid_of)
-    arg = build_container(case, parts)
-    flat = [parts[i] for i in flat_order(case["container"]["tree"])]
-    out = dict(inp, before=before, flat=flat_order(case["container"]["tree"]))
+    arg = inp["arg"]
+    flat = [parts[i] for i in inp["flat"]]
+    out = dict(inp, before=before)
+    if isinstance(arg, S.Score):
+        # the note array of the SAME score object, read before the merge (merge_parts modifies the elements)
+        try:
+            out["sarr_live"] = arg.note_array()
+            out["len_live"] = len(arg)
+        except Exception as e:
+            out["sarr_live_exc"] = "%s: %s" % (type(e).__name__, e)
     try:
         res = S.merge_parts(arg, reassign=case["mode"])
     except Exception as e:
@@ -719,11 +1085,15 @@ def run_case(case):
     return out
 
 
+def has_history(case):
+    return bool(case.get("pre") or case.get("edits") or case.get("score_hist") or case.get("arg_edits"))
+
+
 def score_array_of(case):
     """Score-level note array of freshly built inputs (flattened order)."""
     import partitura.score as S
-    parts = build_inputs(case)["parts"]
-    flat = [parts[i] for i in flat_order(case["container"]["tree"])]
+    inp = prepare(case)
+    flat = [inp["parts"][i] for i in inp["flat"]]
     sc = S.Score(flat)
     return sc.note_array()
 
@@ -754,6 +1124,8 @@ def check_case(case, obs=None):
     Returns (fclass, message, obs): fclass None when the property holds on this case."""
     obs = obs or run_case(case)
     mode = case["mode"]
+    if "skip" in obs:
+        return None, "", obs
     flat = obs["flat"]
     pos_of = {pi: k for k, pi in enumerate(flat)}          # part index -> position in the flattened list
     if "exc" in obs:
@@ -774,7 +1146,7 @@ def check_case(case, obs=None):
         if after != before:
             return "single_modified", "one part given: the part was returned but its elements changed", obs
         now = sorted(obs["oid_of"].get(id(o), -1) for o in all_elements(res))
-        if now != sorted(b["oid"] for b in before):
+        if now != sorted(b["oid"] for b in before if b["part"] == flat[0]):
             return "single_modified", "one part given: the returned part no longer holds exactly its elements", obs
         return None, "", obs
     import partitura.score as S
@@ -782,9 +1154,9 @@ def check_case(case, obs=None):
         return "not_new_part", "result is not a new Part", obs
     ds = [obs["divs"][pi] for pi in flat]
     L = lcm_list(ds)
-    if "raw" in obs and 0 in flat and L != lcm_list(ds + obs["raw_divs"][:case["pre"]["k"]]):
+    if "raw" in obs and 0 in flat and 0 not in obs.get("divs_edited", ()) and L != lcm_list(ds + obs["raw_divs"][:obs["pre_total"]]):
         return "divisions", "history: the first input is itself a merged part counting in %d, not in the lcm of its inputs' divisions %r" % (
-            obs["divs"][0], obs["raw_divs"][:case["pre"]["k"]]), obs
+            obs["divs"][0], obs["raw_divs"][:obs["pre_total"]]), obs
     # the merged part counts time in the lcm of the divisions
     if list(res._quarter_durations) != [L] or list(res._quarter_times) != [0]:
         return "divisions", "merged part has quarter durations %r at %r, expected the lcm %d of %r" % (
@@ -798,8 +1170,11 @@ def check_case(case, obs=None):
     seen = set()
     for o in all_elements(res):
         oid = oid_of.get(id(o))
-        if oid is None:
+        if oid is None or oid not in by_oid:
             return "foreign_element", "merged part holds an object (%s) that is not an element of any input" % type(o).__name__, obs
+        if by_oid[oid]["part"] not in pos_of:
+            return "stale_element", ("merged part holds %s (element %d) of a part that is not among the parts the argument holds when merge_parts "
+                                     "is called (a part that was replaced / removed before the call)" % (by_oid[oid]["cls"], oid)), obs
         if oid in seen:
             return "duplicate_element", "element %d (%s) occurs twice in the merged part" % (oid, by_oid[oid]["kind"]), obs
         seen.add(oid)
@@ -840,7 +1215,7 @@ def check_case(case, obs=None):
             return "element_changed", "tie links of element %d changed" % m["oid"], obs
         # history: an element that went through two merges stands where it stood in its ORIGINAL part
         rb = obs.get("raw", {}).get(m["oid"])
-        if rb is not None and b["part"] == 0:
+        if rb is not None and b["part"] == 0 and 0 not in obs.get("divs_edited", ()):
             if Fraction(m["s"], L) != Fraction(rb["s"], rb["divs"]) or (rb["e"] is not None and Fraction(m["e"], L) != Fraction(rb["e"], rb["divs"])):
                 return "time_history", "%s merged twice stands at [%d, %r]/%d quarters, in its original part at [%d, %r]/%d" % (
                     rb["cls"], m["s"], m["e"], L, rb["s"], rb["e"], rb["divs"]), obs
@@ -901,12 +1276,23 @@ def check_case(case, obs=None):
         return "divisions", "divs_pq of the merged part's note array is %r, expected %d" % (sorted(set(int(x) for x in marr["divs_pq"])), L), obs
     km = sorted((Fraction(int(r["onset_div"]), L), Fraction(int(r["duration_div"]), L), int(r["pitch"])) for r in marr)
     ks = sorted((Fraction(int(r["onset_div"]), int(r["divs_pq"])), Fraction(int(r["duration_div"]), int(r["divs_pq"])), int(r["pitch"])) for r in sarr)
+    if "sarr_live_exc" in obs:
+        return "score_note_array", "note_array() of the score given to merge_parts raised %s" % obs["sarr_live_exc"], obs
+    if "sarr_live" in obs:
+        # the SAME score object, asked before the merge
+        kl = sorted((Fraction(int(r["onset_div"]), int(r["divs_pq"])), Fraction(int(r["duration_div"]), int(r["divs_pq"])), int(r["pitch"])) for r in obs["sarr_live"])
+        if km != kl:
+            return "sounding_notes_same_score", ("sounding notes of merge_parts(score) differ from score.note_array() of the same score object: %d vs %d rows; "
+                                                 "only merged %s; only score %s" % (len(km), len(kl), [tuple(map(str, x)) for x in km if x not in kl][:2],
+                                                                                    [tuple(map(str, x)) for x in kl if x not in km][:2])), obs
+        if obs.get("len_live") != len(flat):
+            return "score_length", "len(score) is %r, the score holds %d parts" % (obs.get("len_live"), len(flat)), obs
     if km != ks:
         extra = [x for x in km if x not in ks][:2]
         lack = [x for x in ks if x not in km][:2]
         return "sounding_notes", ("sounding notes (onset, duration in quarters, pitch) of the merged part differ from the score-level note array: "
                                   "%d vs %d rows; only merged %s; only score %s" % (len(km), len(ks), [tuple(map(str, x)) for x in extra], [tuple(map(str, x)) for x in lack])), obs
-    if case.get("pre"):
+    if has_history(case):
         return None, "", obs           # (the quarter columns are compared on cases without history)
     full = all(any(e["cls"] == "Measure" for e in case["parts"][pi]["elems"]) and any(e["cls"] == "TimeSignature" for e in case["parts"][pi]["elems"]) for pi in flat)
     # onset_quarter comes from each part's own quarter map: comparable when the parts agree on the pickup
@@ -948,26 +1334,35 @@ def c_part(case, before, pi, divs=None):
     return "((%s : list elem), %s)" % (clist([c_elem(b) for b in els]), cz((divs or [sp["divs"] for sp in case["parts"]])[pi]))
 
 
-def c_trees(case, before, divs=None):
+def c_trees(case, before, divs=None, tree=None, bare=False):
     """The argument of merge_parts as the model's [arg]: a Score built from the trees, a list / tuple of
-    trees, or a single Part / PartGroup."""
+    trees, or a single Part / PartGroup.  (tree: the container as it is when merge_parts is called, when
+    the argument was edited; a Score keeps the flat list of the tree it was built from.)"""
     def tr(t):
         if isinstance(t, int):
             return "(TPart %s)" % c_part(case, before, t, divs)
         return "(TGroup %s)" % clist([tr(x) for x in t])
-    trees = "(%s : list tree)" % clist([tr(t) for t in case["container"]["tree"]])
     ty = case["container"]["type"]
+    tree = case["container"]["tree"] if (tree is None or ty == "score") else tree
+    trees = "(%s : list tree)" % clist([tr(t) for t in tree])
+    if bare:
+        return trees
     if ty == "score":
         return "(AScore %s)" % trees
     if ty in ("group", "part"):
-        return "(AOne %s)" % tr(case["container"]["tree"][0])
+        return "(AOne %s)" % tr(tree[0])
     return "(ASeq %s)" % trees
 
 
 def c_case(case, obs):
+    """The Coq term of a case: (mode, arg, observed, merged note array, Ls, score-level array); for a case with
+    edits of the inputs two more components (the inputs before the edits, the edits); for a score history
+    (mode, partlist, operations, parts the score holds at the call, observed, merged note array, Ls, note array of
+    the same score object)."""
     before = obs["before"]
     flat = obs["flat"]
     pos_of = {pi: k for k, pi in enumerate(flat)}
+    live = "sops" in obs
     if "exc" in obs:
         o = "ORaise"
         marr = sarr = "[]"
@@ -983,12 +1378,77 @@ def c_case(case, obs):
         merged = sorted(obs["merged"], key=lambda m: m["oid"])
         o = "(OMerged %s %s)" % (cz(int(res._quarter_durations[0])), clist([c_tagged(m, pos_of) for m in merged]))
         marr = clist(["(%s, %s, %s, %s, %s)" % (cz(r["onset_div"]), cz(r["duration_div"]), cz(r["pitch"]), cz(r["voice"]), cz(r["staff"])) for r in obs["marr"]])
-        sarr = clist(["(%s, %s, %s)" % (cz(r["onset_div"]), cz(r["duration_div"]), cz(r["pitch"])) for r in obs["sarr"]])
-        Ls = cz(int(obs["sarr"]["divs_pq"][0])) if len(obs["sarr"]) else cz(1)
-    return "(%s, %s, %s, (%s : list nrow), %s, (%s : list (Z * Z * Z)))" % (CMODE[case["mode"]], c_trees(case, before, obs.get("divs")), o, marr, Ls, sarr)
+        sa = obs["sarr_live"] if live else obs["sarr"]
+        sarr = clist(["(%s, %s, %s)" % (cz(r["onset_div"]), cz(r["duration_div"]), cz(r["pitch"])) for r in sa])
+        Ls = cz(int(sa["divs_pq"][0])) if len(sa) else cz(1)
+    divs = obs.get("divs")
+    if live:
+        sops = []
+        for op in obs["sops"]:
+            if op[0] == "observe":
+                sops.append("SObserve")
+            elif op[0] == "setitem":
+                sops.append("(SSetItem %s %s)" % (cnat(op[1]), c_part(case, before, op[2], divs)))
+            elif op[0] == "append":
+                sops.append("(SAppend %s)" % c_part(case, before, op[1], divs))
+            elif op[0] == "pop":
+                sops.append("(SPop %s)" % cnat(op[1]))
+            else:
+                sops.append("(SReplaceAll (%s : list part))" % clist([c_part(case, before, pi, divs) for pi in op[1]]))
+        return "(%s, %s, (%s : list sop), (%s : list part), %s, (%s : list nrow), %s, (%s : list (Z * Z * Z)))" % (
+            CMODE[case["mode"]], c_trees(case, before, divs, bare=True), clist(sops),
+            clist([c_part(case, before, pi, divs) for pi in flat]), o, marr, Ls, sarr)
+    base = "%s, %s, %s, (%s : list nrow), %s, (%s : list (Z * Z * Z))" % (
+        CMODE[case["mode"]], c_trees(case, before, divs, tree=obs.get("tree_now")), o, marr, Ls, sarr)
+    if "ps0" in obs:
+        ps0 = clist(["((%s : list elem), %s)" % (clist([c_elem(b) for b in obs["ps0"] if b["part"] == pi]), cz(obs["divs0"][pi])) for pi in flat])
+        by_oid = {b["oid"]: b for b in before}
+        eds = []
+        for ed in obs["edit_log"]:
+            if ed[0] not in pos_of:
+                continue
+            k = cnat(pos_of[ed[0]])
+            if ed[1] == "add":
+                eds.append("(%s, PAdd %s)" % (k, c_elem(by_oid[obs["oid_of"][id(ed[2])]])))
+            elif ed[1] == "remove":
+                eds.append("(%s, PRemove %s)" % (k, cz(ed[2])))
+            elif ed[1] == "voice":
+                eds.append("(%s, PSetVoice %s %s)" % (k, cz(ed[2]), copt(ed[3], cz)))
+            elif ed[1] == "staff":
+                eds.append("(%s, PSetStaff %s %s)" % (k, cz(ed[2]), copt(ed[3], cz)))
+            elif ed[1] == "divs":
+                eds.append("(%s, PSetDivs %s)" % (k, cz(ed[2])))
+        return "(%s, (%s : list part), (%s : list (nat * pedit)))" % (base, ps0, clist(eds))
+    return "(%s)" % base
 
 
+def c_nested(case, obs):
+    """The history of merges as the model's [mtree], leaves = the parts as they were BUILT, with what was observed at
+    the end (only for histories without edits, merged result)."""
+    raw = obs["raw"]
+    rd = obs["raw_divs"]
+    pre = case["pre"]
+    k, kt = pre["k"], obs["pre_total"]
+
+    def leaf_raw(pi):
+        els = sorted((v for v in raw.values() if v["part"] == pi), key=lambda v: v["oid"])
+        return "(MLeaf ((%s : list elem), %s))" % (clist([c_elem(v) for v in els]), cz(rd[pi]))
+    node = "(MNode %s %s)" % (CMODE[pre["mode"]], clist([leaf_raw(pi) for pi in range(k)]))
+    if pre.get("then"):
+        node = "(MNode %s %s)" % (CMODE[pre["then"]["mode"]], clist([node] + [leaf_raw(pi) for pi in range(k, kt)]))
+    kids = [node if pi == 0 else "(MLeaf %s)" % c_part(case, obs["before"], pi, obs["divs"]) for pi in obs["flat"]]
+    pos_of = {pi: n for n, pi in enumerate(obs["flat"])}
+    res = obs["result"]
+    merged = sorted(obs["merged"], key=lambda m: m["oid"])
+    o = "(OMerged %s %s)" % (cz(int(res._quarter_durations[0])), clist([c_tagged(m, pos_of) for m in merged]))
+    return "((MNode %s (%s : list mtree)), %s)" % (CMODE[case["mode"]], clist(kids), o)
+
+
+NCHECKER = "fun c => match c with (t, o) => nested_ok t o end"
 CHECKER = "fun c => match c with (m, a, o, marr, Ls, sarr) => full_case_ok m a o marr Ls sarr end"
+HCHECKER = "fun c => match c with (m, pl, ops, cur, o, marr, Ls, sarr) => score_hist_ok m pl ops cur o marr Ls sarr end"
+ECHECKER = "fun c => match c with (m, a, o, marr, Ls, sarr, ps0, eds) => full_case_ok m a o marr Ls sarr && edits_ok ps0 eds a end"
+IMPORTS = "From PV Require Import Lib.Base Model.C05 Model.C15 Model.C15_Hist."
 # the components of full_case_ok, to name what disagrees on a failing case
 COMPONENTS = [
     ("result (returned part / lcm / elements with origin, class, start, end, voice, staff)",
@@ -1074,7 +1534,7 @@ def shrink_case(case, fclass, budget=80):
         except Exception:
             return False
     # whole parts first (never below two parts; the container becomes a plain list)
-    while len(case["parts"]) > 2 and not case.get("pre"):
+    while len(case["parts"]) > 2 and not has_history(case):
         for pi in range(len(case["parts"]) - 1, -1, -1):
             cand = dict(case, parts=[p for k, p in enumerate(case["parts"]) if k != pi])
             cand["container"] = {"type": "list", "tree": list(range(len(cand["parts"])))}
@@ -1163,6 +1623,18 @@ def features(case):
         f.add("pickup")
     if case.get("pre"):
         f.add("history_first_input_is_a_merged_part")
+        if case["pre"].get("then"):
+            f.add("history_three_levels_of_merges")
+    if any(p.get("np") for p in case["parts"]):
+        f.add("numpy_integer_divisions_and_times")
+    if case.get("hist_kind"):
+        f.add("history:" + case["hist_kind"])
+    for op in case.get("score_hist", []):
+        f.add("history_score_op:" + op[0] + (":" + op[1] if op[0] in ("unfold", "observe") else ""))
+    for ed in case.get("edits", []):
+        f.add("history_edit:" + ed["op"] + (":" + ed["what"] if ed["op"] == "observe" else ""))
+    for ed in case.get("arg_edits", []):
+        f.add("history_arg_edit:%s_%s" % (ed[0], "list" if ed[1] == "top" else "group"))
     if voiceless(case):
         f.add("voiceless_note_or_rest(outside_quantifier)")
     ids = [p["id"] for p in case["parts"]]
@@ -1219,7 +1691,8 @@ def check_loader(case, workdir, k):
         if not {"Measure", "TimeSignature"} <= cl:
             return "skip: part without measures", None
     parts = [build_part(sp)[0] for sp in case["parts"]]
-    fn = os.path.join(workdir, "loader_%d.musicxml" % k)
+    # one file name for every case of the run (rewritten each time): a loader remembering files by name shows
+    fn = os.path.join(workdir, "loader_case.musicxml")
     try:
         partitura.save_musicxml(S.Score(parts), fn)
         sc = partitura.load_score(fn)
@@ -1275,6 +1748,50 @@ LOADER_CHECKER = "fun c => match c with (ps, single, impl) => loader_case_ok ps 
 # ----------------------------------------------------------------------------
 
 
+class CpuTimeout(BaseException):
+    """CPU-time guard (ITIMER_VIRTUAL): a case that does not terminate."""
+
+
+def _on_vtalrm(signum, frame):
+    raise CpuTimeout()
+
+
+def work_case(item):
+    """One case in a worker process: oracle, Coq term, what the parent needs (plain data only)."""
+    import signal
+    import traceback
+    ci, origin, case = item
+    obs = None
+    signal.signal(signal.SIGVTALRM, _on_vtalrm)
+    signal.setitimer(signal.ITIMER_VIRTUAL, 120.0)
+    try:
+        try:
+            fclass, msg, obs = check_case(case)
+        except CpuTimeout:
+            fclass, msg, obs = "timeout", "merge_parts (or a call of the history before it) used more than 120 s of CPU time", None
+        except Exception:   # the oracle itself must not die on a case
+            fclass, msg, obs = "oracle_exception", "oracle raised: " + traceback.format_exc()[-600:], None
+        term = perr = view = None
+        slim = {}
+        if obs:
+            slim = {k: obs[k] for k in ("detail", "soft", "expected_raise", "outside_quantifier", "quarters_compared", "skip", "exc") if k in obs}
+            view = json.dumps({"exc": obs.get("exc"), "merged": sorted(obs.get("merged", []), key=lambda m: m["oid"]),
+                               "idx": obs.get("returned_idx")}, sort_keys=True, default=str)
+            if not fclass and "skip" not in obs and not obs.get("outside_quantifier") and not (obs.get("expected_raise") and has_history(case)):
+                try:
+                    term = c_case(case, obs)
+                    slim["term_kind"] = "hist" if "sops" in obs else ("edit" if "ps0" in obs else "plain")
+                    if case.get("pre") and not case.get("edits") and "merged" in obs and 0 in obs["flat"] and len(obs["flat"]) > 1:
+                        slim["nested_term"] = c_nested(case, obs)
+                except CpuTimeout:
+                    perr = "timeout"
+                except Exception as e:
+                    perr = repr(e)
+    finally:
+        signal.setitimer(signal.ITIMER_VIRTUAL, 0)
+    return fclass, msg, slim if obs else None, term, perr, view
+
+
 def report(ctx, case, fclass, msg, obs, soft_detail=None):
     raw = {"kind": "merge", "case": case, "fclass": fclass, "message": msg}
     d0 = soft_detail or (obs or {}).get("detail")
@@ -1282,6 +1799,10 @@ def report(ctx, case, fclass, msg, obs, soft_detail=None):
         raw["detail"] = d0
     if any(pred(raw) for kid, pred in ctx.matchers.items() if any(k["id"] == kid for k in ctx.known)):
         # a known finding: recorded with the input as generated (shrinking costs many merges)
+        ctx.violation("merge_parts(reassign=%r) on %d parts (divisions %r): %s" % (
+            case["mode"], len(case["parts"]), [p["divs"] for p in case["parts"]], msg), raw)
+        return
+    if fclass in ("timeout", "order_dependent"):
         ctx.violation("merge_parts(reassign=%r) on %d parts (divisions %r): %s" % (
             case["mode"], len(case["parts"]), [p["divs"] for p in case["parts"]], msg), raw)
         return
@@ -1301,7 +1822,13 @@ def report(ctx, case, fclass, msg, obs, soft_detail=None):
     ctx.violation("merge_parts(reassign=%r) on %d parts (divisions %r, %s %s%s): %s" % (
         small["mode"], len(small["parts"]), [p["divs"] for p in small["parts"]], small["container"]["type"],
         json.dumps(small["container"]["tree"]).replace(" ", ""),
-        (", first %d merged before in %r mode" % (small["pre"]["k"], small["pre"]["mode"])) if small.get("pre") else "", m2 or msg), replay_obj)
+        ((", first %d merged before in %r mode%s" % (small["pre"]["k"], small["pre"]["mode"], (
+            ", the result merged with the next %d in %r mode" % (small["pre"]["then"]["k"], small["pre"]["then"]["mode"])) if small["pre"].get("then") else ""))
+         if small.get("pre") else "") +
+        ((", score history %s" % json.dumps(small["score_hist"]).replace(" ", "")) if small.get("score_hist") else "") +
+        ((", inputs edited before the call: %s" % json.dumps([e_ for e_ in small["edits"] if e_["op"] != "observe"]).replace(" ", "")) if small.get("edits") else "") +
+        ((", argument edited after a first look: %s" % json.dumps(small["arg_edits"]).replace(" ", "")) if small.get("arg_edits") else ""),
+        m2 or msg), replay_obj)
 
 
 def run(ctx):
@@ -1322,23 +1849,26 @@ def run(ctx):
                        "object ids unique; tie links stay inside a part and are acyclic"]
     ctx.matchers["C15-K1"] = match_k1
     ctx.matchers["C15-K2"] = match_k2
-    ok, why = ctx.coq_props(expect_min=31)
-    if not ok:
-        ctx.log("coq_props failed: " + why[:2000])
     quick = ctx.tier == "quick"
     nv0 = len(ctx.violations)
     rng = ctx.rng
     cases = [("corpus", c) for c in corpus_cases()]
-    for k in range(110 if quick else 1400):
+    for k in range(85 if quick else 1400):
         cases.append(("random", gen_case(rng)))
     for mode in MODES:          # weight on the corner the property singles out, in every mode
         for k in range(8 if quick else 50):
             cases.append(("random", gen_case(rng, mode=mode)))
         for k in range(4 if quick else 25):     # histories: a merged part merged again (first merge in any mode)
             cases.append(("random", gen_case(rng, mode=mode, force_history=True)))
+    # state carried between calls: Scores after item assignment / list operations / unfolding, inputs read and
+    # edited before the call, a merged part edited and merged again, arguments edited after a first look
+    for mode in MODES:
+        for kind in sorted(set(HIST_KINDS)):
+            for k in range((3 if kind.startswith("score") else 2) if quick else 24):
+                cases.append(("history", gen_hist_case(rng, mode=mode, kind=kind)))
     ss = small_scope_cases()
     if quick:
-        ss = [ss[i] for i in sorted(rng.sample(range(len(ss)), 60))]
+        ss = [ss[i] for i in sorted(rng.sample(range(len(ss)), 40))]
     cases += [("small_scope", c) for c in ss]
     cases.append(("random", gen_case(rng, mode="auto", force_many_voices=True)))
     # every TimedObject class of the live hierarchy, in every mode (complete finite domain)
@@ -1349,15 +1879,24 @@ def run(ctx):
     ctx.obligation("class sweep: every TimedObject class of partitura.score is instantiated (%d classes, %d cases)" % (len(live_classes()), len(sweep)),
                    not skipped, skipped[:5])
     terms, tcases = [], []
+    hterms, hcases, eterms, ecases, nterms, ncases = [], [], [], [], [], []
+    first_obs = {}
     rterms = []                 # cases outside the quantifier (a note or rest without voice): recorded, never a violation
     seen_fail = {}
     ctx.log("cases generated: %d" % len(cases))
-    for origin, case in cases:
-        try:
-            fclass, msg, obs = check_case(case)
-        except Exception as e:   # the oracle itself must not die on a case
-            import traceback
-            fclass, msg, obs = "oracle_exception", "oracle raised: " + traceback.format_exc()[-600:], None
+    # same process, the same inputs again after everything else ran (module-level state): the first corpus cases
+    # are run a second time at the end and must be observed exactly as the first time
+    again = [("again", c) for o_, c in cases[:12] if o_ == "corpus"]
+    # the cases are evaluated by forked workers (each worker merges many different inputs one after the other in
+    # one process) while the proofs are re-checked; results come back in the order of the cases
+    import multiprocessing
+    items = [(ci, origin, case) for ci, (origin, case) in enumerate(cases + again)]
+    pool = multiprocessing.get_context("fork").Pool(max(1, min(core.NJOBS if hasattr(core, "NJOBS") else int(os.environ.get("VERIF_JOBS", "8")), 8)))
+    results = pool.imap(work_case, items, chunksize=2)
+    ok, why = ctx.coq_props(expect_min=45)
+    if not ok:
+        ctx.log("coq_props failed: " + why[:2000])
+    for (ci, origin, case), (fclass, msg, obs, term, perr, view) in zip(items, results):
         ctx.evaluations += 2 if len(case["parts"]) > 1 else 1
         ctx.count("origin:" + origin)
         ctx.count("mode:" + case["mode"])
@@ -1366,6 +1905,14 @@ def run(ctx):
             "(group before a part)" if any(not isinstance(tree[i], int) and any(isinstance(y, int) for y in tree[i + 1:]) for i in range(len(tree)))
             else "(nested)" if any(not isinstance(t, int) for t in tree) else ""))
         ctx.count("parts=%d" % len(case["parts"]))
+        if obs and "skip" in obs:
+            ctx.count("skipped:" + obs["skip"])
+            continue
+        if origin == "again" or (origin == "corpus" and ci < 12):
+            if origin == "corpus":
+                first_obs[json.dumps(case, sort_keys=True)] = view
+            elif not fclass and first_obs.get(json.dumps(case, sort_keys=True)) != view:
+                fclass, msg = "order_dependent", "the same inputs merged again later in the same process are observed differently (state kept between calls)"
         for f in sorted(features(case)):
             ctx.count("feature:" + f)
         ctx.nontrivial(case)
@@ -1384,22 +1931,30 @@ def run(ctx):
             continue
         if obs.get("expected_raise") or obs.get("outside_quantifier"):
             ctx.count("outside_quantifier:" + ("raises" if obs.get("expected_raise") else "merged_without_raising"))
-            if obs.get("expected_raise"):
-                try:
-                    rterms.append(c_case(case, obs))
-                except Exception:
-                    pass
+            if obs.get("expected_raise") and not has_history(case) and term:
+                rterms.append(term)
             continue
         ctx.count("oracle:ok")
         if obs.get("quarters_compared"):
             ctx.count("oracle:quarter_columns_compared")
         if len(ctx.samples) < 3 and origin == "random" and len(case["parts"]) > 1:
             ctx.sample({"case": case})
-        try:
-            terms.append(c_case(case, obs))
+        if obs.get("nested_term"):
+            nterms.append(obs["nested_term"])
+            ncases.append(case)
+        if term is None:
+            ctx.violation("cannot print case for Coq: %s" % perr, {"kind": "merge", "case": case, "fclass": "printer"}, no_input=True)
+        elif obs.get("term_kind") == "hist":
+            hterms.append(term)
+            hcases.append(case)
+        elif obs.get("term_kind") == "edit":
+            eterms.append(term)
+            ecases.append(case)
+        else:
+            terms.append(term)
             tcases.append(case)
-        except Exception as e:
-            ctx.violation("cannot print case for Coq: %r" % e, {"kind": "merge", "case": case, "fclass": "printer"}, no_input=True)
+    pool.close()
+    pool.join()
     ctx.log("oracle done")
     # the loader that relies on merge_parts
     nload = 8 if quick else 60
@@ -1433,9 +1988,17 @@ def run(ctx):
         if fn.startswith("loader_"):
             os.remove(os.path.join(ctx.work, fn))
     ctx.log("loader done")
+    # all correspondence batches are started at once (coqc in parallel), the results are taken in order below
+    from concurrent.futures import ThreadPoolExecutor
+    ex = ThreadPoolExecutor(6)
+    futs = {}
+    for nm, tl, chk, sh in (("loader", lterms, LOADER_CHECKER, 20), ("merge", terms, CHECKER, 60), ("hist", hterms, HCHECKER, 60),
+                            ("edit", eterms, ECHECKER, 60), ("nested", nterms, NCHECKER, 60), ("raise", rterms, CHECKER, 60)):
+        if tl:
+            futs[nm] = ex.submit(ctx.coq_failing, nm, IMPORTS, "", tl, chk, shard=sh)
     if lterms:
         try:
-            failing = ctx.coq_failing("loader", "From PV Require Import Lib.Base Model.C05 Model.C15.", "", lterms, LOADER_CHECKER, shard=20)
+            failing = futs["loader"].result()
             ctx.obligation("correspondence: model load_as_part (merge_parts in 'voice' mode on the parts of load_score(file)) gives the note array "
                            "(onset, duration, pitch, voice, staff) of load_score_as_part(file) on %d exported files" % len(lterms), not failing, failing[:5])
             for i in failing[:2]:
@@ -1453,7 +2016,7 @@ def run(ctx):
         ctx.obligation("correspondence: %s on 0 cases" % what, False, "no case passed the oracle")
     else:
         try:
-            failing = ctx.coq_failing("merge", "From PV Require Import Lib.Base Model.C05 Model.C15.", "", terms, CHECKER, shard=60)
+            failing = futs["merge"].result()
             ctx.obligation("correspondence: %s on %d cases" % (what, len(terms)), not failing, failing[:5])
             for i in failing[:3]:
                 c = tcases[i]
@@ -1464,9 +2027,31 @@ def run(ctx):
         except RuntimeError as e:
             ctx.obligation("correspondence: %s" % what, False, str(e)[-1500:])
             ctx.violation("correspondence machinery failed: %s" % str(e)[-800:], {"stage": "merge"}, no_input=True)
+    for nm, tl, cl, chk, what2 in (
+            ("hist", hterms, hcases, HCHECKER, "score histories: the state machine of the Score (score_init, item assignment, append / pop, the replacement "
+             "unfold_part_* performs, reads) run in Coq arrives at the parts the score holds at the call; merge_parts(score) and the note array of the SAME score "
+             "object are those of the model on that state"),
+            ("edit", eterms, ecases, ECHECKER, "inputs read and edited between two calls: the edits (add / remove / voice / staff / divisions) applied in Coq to the "
+             "inputs as first seen give the inputs found at the call; merge_parts = model on those"),
+            ("nested", nterms, ncases, NCHECKER, "histories of merges of depth two and three run by the model (meval) from the parts as they were BUILT give the "
+             "quarter duration and every element (start, end, voice, staff) of the part returned at the end")):
+        if not tl:
+            ctx.obligation("correspondence: %s on 0 cases" % what2, False, "no history case reached the correspondence")
+            continue
+        try:
+            failing = futs[nm].result()
+            ctx.obligation("correspondence: %s on %d cases" % (what2, len(tl)), not failing, failing[:5])
+            for i in failing[:2]:
+                c = cl[i]
+                ctx.violation("Coq model and implementation disagree on merge_parts(reassign=%r) after a history (%s), divisions %r" % (
+                    c["mode"], c.get("hist_kind"), [p_["divs"] for p_ in c["parts"]]),
+                    {"kind": "merge", "case": c, "fclass": "correspondence", "message": "model/implementation disagree after a history"})
+        except RuntimeError as e:
+            ctx.obligation("correspondence: %s" % what2, False, str(e)[-1500:])
+            ctx.violation("correspondence machinery failed (%s): %s" % (nm, str(e)[-800:]), {"stage": nm}, no_input=True)
     if rterms:
         try:
-            failing = ctx.coq_failing("raise", "From PV Require Import Lib.Base Model.C05 Model.C15.", "", rterms, CHECKER, shard=60)
+            failing = futs["raise"].result()
             ctx.obligation("outside the quantifier (recorded only): a note or rest without voice makes merge_parts raise in 'voice' / 'auto' mode exactly "
                            "when the model does (merge_raises_iff) on %d cases" % len(rterms), not failing, failing[:5])
         except RuntimeError as e:
@@ -1482,6 +2067,10 @@ def replay(obj):
         case = r["case"]
         print("case:", json.dumps(case))
         fclass, msg, obs = check_case(case)
+        for key in ("pre", "score_hist", "edits", "arg_edits"):
+            if case.get(key):
+                print("history (%s):" % key, json.dumps(case[key]))
+        print("parts the argument holds when merge_parts is called (indices of the inputs below):", obs.get("flat"))
         print("inputs (oid, part, class, start, end, voice, staff):")
         for b in obs["before"]:
             print("   ", (b["oid"], b["part"], b["kind"], b["s"], b["e"], b["voice"], b["staff"]))
